@@ -306,6 +306,19 @@ func main() {
 			die2("replay of %s failed to run: %v", path, err)
 		}
 		same := (hung && v.hang) || (rr != nil && rr.Violation == mr.Violation)
+		if !same && !v.hang {
+			// The case alone does not fail in a fresh process. Before blaming the harness, check whether
+			// the failure depends on what the same worker process ran before it (state that lives in the
+			// process: a cache, a registry): re-run that worker's exact seed sequence up to this seed.
+			hist := historySpec{Base: base, Offset: (v.seed - base) % int64(workers), Stride: int64(workers), Upto: v.seed, Tier: *tier}
+			if hr := replayHistory(prop, bin, hist, cfg); hr != nil && hr.Violation == v.res.Violation {
+				hb, _ := json.MarshalIndent(map[string]any{"property": prop, "history": hist, "case": v.c, "expected_result": hr,
+					"note": "the violation depends on the cases the same worker process ran before this one (process-wide state); replay re-runs that exact seed sequence"}, "", " ")
+				os.WriteFile(path, hb, 0o644)
+				hr.Detail = "[depends on earlier cases of the same process: replay re-runs seeds " + fmt.Sprintf("%d, %d, ... %d", hist.Base+hist.Offset, hist.Base+hist.Offset+hist.Stride, hist.Upto) + "]\n" + hr.Detail
+				mr, same = hr, true
+			}
+		}
 		if !same {
 			got := "hang"
 			if rr != nil {
@@ -383,6 +396,34 @@ func matchKnown(k *knownFile, prop string, r *harness.Result) string {
 		return f.What
 	}
 	return ""
+}
+
+// historySpec names the exact seed sequence one worker process ran.
+type historySpec struct {
+	Base   int64  `json:"base"`
+	Offset int64  `json:"offset"`
+	Stride int64  `json:"stride"`
+	Upto   int64  `json:"upto_seed"`
+	Tier   string `json:"tier"`
+}
+
+// replayHistory re-runs a worker's seed sequence up to and including Upto in a fresh process and
+// returns the result recorded for Upto if it is a violation.
+func replayHistory(prop, bin string, h historySpec, cfg tierCfg) *harness.Result {
+	out := filepath.Join(scratch, fmt.Sprintf("hist.%d.jsonl", h.Upto))
+	extra := []string{
+		fmt.Sprintf("VERIF_SEED_BASE=%d", h.Base), fmt.Sprintf("VERIF_COUNT=%d", h.Upto-h.Base+1),
+		fmt.Sprintf("VERIF_OFFSET=%d", h.Offset), fmt.Sprintf("VERIF_STRIDE=%d", h.Stride), "VERIF_MODE=sweep", "VERIF_MAX_VIOL=1000000",
+	}
+	p := startWorker(prop, h.Tier, bin, extra, out, out+".hb")
+	p.wait(cfg.HangS * 3)
+	var res *harness.Result
+	readLines(out, func(l *line) {
+		if l.Kind == "violation" && l.Seed == h.Upto {
+			res = l.Res
+		}
+	})
+	return res
 }
 
 type violation struct {
@@ -806,9 +847,27 @@ func doReplay(prop, bin, path string, known *knownFile, dumpLog bool) int {
 		die2("%v", err)
 	}
 	var probe struct {
-		RaceLeg bool `json:"race_leg"`
+		RaceLeg bool         `json:"race_leg"`
+		History *historySpec `json:"history"`
 	}
 	json.Unmarshal(b, &probe)
+	if probe.History != nil {
+		cfg := tiers[prop]["quick"]
+		r := replayHistory(prop, bin, *probe.History, cfg)
+		if r == nil {
+			fmt.Println("the recorded seed sequence runs clean on this tree")
+			cleanup()
+			return 0
+		}
+		if kf := matchKnown(known, prop, r); kf != "" {
+			fmt.Printf("KNOWN-FINDING: property=%s %s\n", prop, kf)
+			cleanup()
+			return 0
+		}
+		fmt.Printf("VIOLATION property=%s replay=%s\n  class: %s\n  %s\n", prop, path, r.Violation, indent(r.Detail))
+		cleanup()
+		return 1
+	}
 	if probe.RaceLeg {
 		info := map[string]any{}
 		fixed := ""
